@@ -257,7 +257,11 @@ template <class M> static std::unique_ptr<M> construct(Rng & rng, Sizes z) {
         double d = makeDiscount(rng, true);
         V3 t = makeTable(rng, S, A, S, "copyT");       // [s][a][s1]
         int srcKind = (int)rng.below(3);               // 0 dense library model, 1 sparse library model, 2 generic
-        l << "copy";
+        // source of the very same class: that is the implicit C++ copy constructor (a clone), not a conversion
+        constexpr bool sameAsDense = std::is_same_v<M, MDP::Model> || std::is_same_v<M, POMDP::Model<MDP::Model>>;
+        constexpr bool sameAsSparse = std::is_same_v<M, MDP::SparseModel> || std::is_same_v<M, POMDP::SparseModel<MDP::SparseModel>>;
+        const bool clone = (srcKind == 0 && sameAsDense) || (srcKind == 1 && sameAsSparse);
+        l << (clone ? "clone" : "copy");
         if constexpr (P) {
             V3 om = makeTable(rng, S, A, O, "copyO");  // [s1][a][o]
             if (srcKind == 2) {
@@ -385,6 +389,7 @@ template <bool Sparse> static void amdpCase(Rng & rng, long idx) {
     size_t S = (size_t)rng.range(1 + (idx % 5 != 0), 4), A = (size_t)rng.range(1, 3), O = (size_t)rng.range(1, 3);
     auto pt = verif::randomPomdp(rng, S, A, O);
     auto model = verif::toDense(pt);
+    const auto model2 = model;     // same internal generator state: BeliefGenerator samples through the model
     size_t nBeliefs = (size_t)rng.range(1, 8), buckets = (size_t)rng.range(1, 8);
     unsigned seed = (unsigned)rng.below(1u << 30);
     POMDP::AMDP amdp(nBeliefs, buckets);
@@ -395,7 +400,7 @@ template <bool Sparse> static void amdpCase(Rng & rng, long idx) {
     const auto & mdp = std::get<0>(result); const auto & disc = std::get<1>(result);
     // the same beliefs again (the generator inside discretize* was seeded by the first Seeder draw)
     Seeder::setRootSeed(seed);
-    POMDP::BeliefGenerator<decltype(model)> bGen(model);
+    POMDP::BeliefGenerator<decltype(model)> bGen(model2);
     const auto beliefs = bGen(nBeliefs);
     Line ev; size_t nev = 0;
     POMDP::Belief b1(S);
